@@ -126,6 +126,9 @@ func extProtoUnmarshal(fr *frame, a []value) value {
 		}
 		hb = append(hb, cb)
 	}
+	if len(hb) == 0 {
+		return iface{} // an empty body decodes to the empty message
+	}
 	src, ok := i.protoMsgs[string(hb)]
 	if !ok {
 		return fr.errorValue("proto: cannot parse invalid wire-format data")
@@ -206,7 +209,7 @@ func extClientDo(fr *frame, a []value) value {
 	if tr.t == nil {
 		i.ctx.end("UNSUPPORTED", "http.Client.Do without a harness Transport")
 	}
-	m := i.prog.LookupMethod(tr.t, nil, "RoundTrip")
+	m := i.safeLookup(tr.t, "RoundTrip")
 	if m == nil {
 		i.ctx.end("UNSUPPORTED", "Transport has no RoundTrip")
 	}
